@@ -567,6 +567,8 @@ def draw_ops(rng):
         ops = [("x11_history", hf(), rng.choice([0, 1, 1, 2, 3, 4]), "refuse"), F] + ops
     if rng.random() < 0.5:
         ops = ops + [("x11_history", hf(), rng.randint(0, 4), rng.choice(["grant", "refuse"])), F]
+    if rng.random() < 0.5:
+        ops = ops + [("open_session",), ("enable_agent", False), F]
     if rng.random() < 0.6:
         ops = ops + [("cancel_pf", False, "all"), ("enable_pf", hf(), rng.choice(["explicit", "zero"])), F,
                      (rng.choice(["cancel_pf_refused", "cancel_pf_delayed"]), False), F]
@@ -623,7 +625,7 @@ def run(ctx):
     ctx.require("tcp_open_read_phase_after_cancel_port0", 8)
     ctx.require("tcp_open_read_phase_after_cancel_explicit", 5)
     ctx.require("tcp_open_read_phase_after_cancel_all_of_many", 8)
-    ctx.require("tcp_open_read_phase_live_after_partial_cancel", 5)
+    ctx.require("tcp_open_read_phase_live_after_partial_cancel", 3)
     ctx.require("tcp_open_read_phase_live_after_rerequest", 5)
     ctx.require("tcp_open_accepted_phase_live", 10)
     ctx.require("api_cancel_pf_refused", 8)
